@@ -686,7 +686,7 @@ class World(OpsMixin, OracleMixin):
         self.on_quiescence(final=True)
         self.final_checks()
         fin = self.sc.get("final", {})
-        if fin.get("probe", True) and not self.viol:
+        if fin.get("probe", True):
             for pr in self.pools:
                 await self.capacity_probe(pr, final=True)
         if fin.get("gac"):
